@@ -38,6 +38,12 @@ Theorem C01_hex_default : forall (T : Type) m c (t : T), valid m = true -> is_ws
 Proof. exact hex_roundtrip_default. Qed.
 Print Assumptions C01_hex_default.
 
+(* separators of any length that hold no hexadecimal digit and no whitespace character other than the space ("--", ", ", " : ", "-x-") *)
+Theorem C01_hex_multi : forall (T : Type) m sep (t : T), valid m = true -> sep_ok_multi sep ->
+  from_hex (hex m sep) (Some sep) t = Ok (m, t).
+Proof. exact hex_roundtrip_multi. Qed.
+Print Assumptions C01_hex_multi.
+
 (* non-vacuity: a non-trivial message meets the hypothesis *)
 Example C01_nonvacuous : valid (Pitchwheel 9 (-8191)) = true /\ enc (Pitchwheel 9 (-8191)) = [233; 1; 0].
 Proof. split; reflexivity. Qed.
